@@ -75,3 +75,14 @@ Example c17_query_example :
   forwarded_query (fun aq => Some aq) (Some (s "/article?id=a1"%string)) (s "b=2&a=%zz"%string)
   = Some (s "b=2&a=%zz&id=a1"%string).
 Proof. reflexivity. Qed.
+
+(* ---- the request line is passed on as received ---- *)
+From V.Gen Require Surface.
+
+(* the director REGENERATED from pkg/upstream/http.go on this run still has the shape the oracles rely
+   on - the library's director first, then the outgoing URL made opaque and set to the request target
+   as received (or as rewritePath left it), query fields cleared - and newReverseProxy installs it once *)
+Theorem c17_director_shape :
+  Surface.director_passes_request_uri = true /\ Surface.director_installations = 1%nat.
+Proof. split; vm_compute; reflexivity. Qed.
+Print Assumptions c17_director_shape.
